@@ -95,6 +95,72 @@ def oracle(ctx, text, cls, reftext, name, qual, alias, cname):
     ctx.fail('identifier accessors do not return the written parts', text, observed=got, required=want, context=cname, ref=reftext)
 
 
+def _check_ref(ctx, text, ref, name, qual, alias, cname):
+    oracle(ctx, text, sql.Identifier, ref, name, qual, alias, cname)
+
+
+def spelling_sweep(ctx):
+    """'every non-keyword identifier spelling': names derived from EVERY dictionary word (word_x, xword, word1 — a lexer rule that lost its
+    word boundary splits them), names with every character the word rule allows inside a name ($, #, _, digits, non-ASCII letters), temp-table /
+    variable prefixes; each as name, as qualifier and as alias (AS and implicit) in three contexts"""
+    import props.C18 as C18
+    rng = ctx.rng
+    words = C18.all_dictionary_words()
+    dictionary = set(w.upper() for w in words)
+    if ctx.quick():
+        must = ['ASC', 'DESC', 'END', 'NOT', 'GO', 'UNION', 'CREATE', 'DOUBLE', 'GROUP', 'ORDER', 'PRIMARY', 'HANDLER', 'LATERAL', 'AT', 'LIKE',
+                'ILIKE', 'RLIKE', 'REGEXP', 'JOIN', 'LEFT', 'RIGHT', 'FULL', 'INNER', 'OUTER', 'CROSS', 'NATURAL', 'CASE', 'IN', 'VALUES', 'USING',
+                'FROM', 'AS', 'NULLS', 'NULL', 'IF', 'LOOP', 'WHILE', 'WITH', 'SELECT', 'SET', 'ON', 'INTO']
+        words = sorted(set([w for w in words if rng.random() < 0.3] + must))
+    spellings = []
+    for w in words:
+        c = lambda s: ''.join(ch.upper() if rng.random() < 0.5 else ch.lower() for ch in s)
+        for cand in (c(w) + '_x', 'x' + c(w), c(w) + '1', c(w) + 'x'):
+            if cand.upper() not in dictionary:
+                spellings.append(cand)
+    inner = list('$#_0123456789') + ['é', 'Ü', 'ß', 'ø', 'ñ', 'я', 'λ', '名', 'ı', 'İ']
+    for ch in inner:
+        spellings += ['a' + ch + 'b', 'k' + ch, 'Col' + ch + '9']
+    spellings += ['_a', '_1', '__x', 'é', 'Ünï', '業者名稱', '#tmp1', '##glob', '@v1', 'x$', 'v$name', 'a#b#c']
+    ctx.dist['spelling-sweep'] = len(spellings)
+    for sp in spellings:
+        o = rng.choice(['zq', 'm7', 'w_w'])
+        forms = [(sp, sp, None, None), (sp + '.' + o, o, sp, None), (o + '.' + sp, sp, o, None),
+                 (o + ' AS ' + sp, o, None, sp), (o + ' ' + sp, o, None, sp), (sp + ' ' + o, sp, None, o)]
+        if ctx.quick():
+            forms = rng.sample(forms, 3)
+        for ref, name, qual, alias in forms:
+            k = rng.randrange(3)
+            if k == 0:
+                _check_ref(ctx, 'SELECT ' + ref + ', b FROM tt', ref, name, qual, alias, 'sweep-select-list')
+            elif k == 1:
+                _check_ref(ctx, 'SELECT a FROM ' + ref + ' WHERE a = 1', ref, name, qual, alias, 'sweep-from')
+            else:
+                _check_ref(ctx, 'UPDATE ' + ref + ' SET v = 1', ref, name, qual, alias, 'sweep-update')
+
+
+def whitespace_chars():
+    import re
+    pat = re.compile(r'\s')
+    return [chr(c) for c in range(0x3100) if pat.match(chr(c))]
+
+
+def whitespace_sweep(ctx):
+    """'does not depend on the surrounding whitespace': every character Python's \\s matches (the lexer's whitespace class), alone and in
+    pairs, at every gap of an aliased reference in three contexts"""
+    rng = ctx.rng
+    chars = whitespace_chars()
+    ctx.dist['whitespace-chars'] = len(chars)
+    for w in chars:
+        for w2 in ([''] + ([rng.choice(chars)] if ctx.quick() else chars[:8])):
+            g = w + w2
+            for ref, name, qual, alias in (('q_1.n_1' + g + 'AS' + g + 'k_1', 'n_1', 'q_1', 'k_1'), ('"Q x"' + g + 'k_1', 'Q x', None, 'k_1'),
+                                           ('n_1', 'n_1', None, None)):
+                _check_ref(ctx, 'SELECT' + g + ref + g + 'FROM' + g + 'tt', ref, name, qual, alias, 'ws-select')
+                _check_ref(ctx, 'SELECT' + g + 'a' + g + 'FROM' + g + ref + g + 'WHERE' + g + 'a = 1', ref, name, qual, alias, 'ws-from')
+                _check_ref(ctx, 'SELECT a, (SELECT' + g + ref + g + 'FROM uu)' + g + 'AS s1' + g + 'FROM tt', ref, name, qual, alias, 'ws-subquery')
+
+
 def run(ctx):
     rng = ctx.rng
     texts = []
@@ -106,6 +172,8 @@ def run(ctx):
             oracle(ctx, text, cls, ref, name, qual, alias, cname)
             texts.append(text)
     ctx.samples += [short(t, 90) for t in texts[:3]]
+    spelling_sweep(ctx)
+    whitespace_sweep(ctx)
     for c in streams.corpus('C12'):
         oracle(ctx, *c['input'])
     if ctx.model.available:
@@ -176,6 +244,29 @@ def domain_skeleton(ctx):
                 ctx.fail('re-spelled table skeleton: accessors do not return the written parts', t2,
                          observed='none', required={'real_name': sub(name), 'parent_name': sub(qual), 'alias': sub(alias)}, skeleton=text)
                 break
+
+
+def dollar_after_dot(text):
+    """mechanism of KF-C12-1: an unquoted name part that directly follows a `.` and contains `$` or `#` — the lexer's `.Name` rule
+    `(?<=\\.)[A-ZÀ-Ü]\\w*` stops at that character, while the word rule `\\w[$#\\w]*` (used for an unqualified name) does not"""
+    import re
+    t = re.sub(r'"(""|[^"])*"|`(``|[^`])*`', 'Q', text)
+    return re.search(r'\.[^\W\d_]\w*[$#]', t) is not None
+
+
+def classify(f, kf):
+    for k in kf:
+        ref = f.get('ref') if isinstance(f.get('ref'), str) else f.get('required')
+        if k['id'] == 'KF-C12-1' and isinstance(ref, str) and dollar_after_dot(ref):
+            return k['id']
+    return None
+
+
+def replay_known(ctx, k):
+    for w in k.get('witnesses', []):
+        if not _has_ref(w['input'], w.get('qualifier'), w['name'], w.get('alias')):
+            return True
+    return False
 
 
 def replay(ctx, payload):
